@@ -6,6 +6,7 @@ runs pewlib and canonicalises.  Theorem `sync_render` (PewTheorems/C08.lean) pro
 acquisition with `truthHyp` (reported here as `hyp`); the comparison below ties the implementation to both."""
 import copy
 import datetime
+import logging
 import math
 import random
 import sys
@@ -87,6 +88,48 @@ def sample_values(case, n):
     return data
 
 
+CLOCKS = ["array", "array2d", "scalar", "npscalar"]
+LAYOUTS = ["flat", "row", "rows", "col", "fortran", "strided"]
+DTYPES = ["f8", "f4", "plain"]
+DEFAULTS = {"clock": "array", "layout": "flat", "layout_k": 0, "dtype": "f8", "selform": "plain", "precall": False}
+
+
+def opt(case, key):
+    """fields added after the first corpus files were written default to the plain call"""
+    return case.get(key, DEFAULTS[key])
+
+
+def signal_count(acq):
+    """number of samples of the signal: samples skip .. skip+take of the acquisition"""
+    return max(0, min(acq["take"], total_samples(acq) - acq["skip"]))
+
+
+def layout_shape(layout, k, n):
+    """shape of the array that holds the n consecutive samples (C order)"""
+    if layout in ("flat", "strided"):
+        return [n]
+    if layout == "row":
+        return [1, n]
+    if layout == "col":
+        return [n, 1]
+    divs = [d for d in range(2, n) if n % d == 0]              # rows of consecutive samples, as importers return
+    r = divs[k % len(divs)] if divs else 1
+    return [r, n // r]
+
+
+def lay_out(flat, layout, shape, poison):
+    """the same n values in the array the caller holds; `flat` is 1-d and C contiguous"""
+    if layout == "flat":
+        return flat
+    if layout == "strided":                                    # every second entry of a larger buffer
+        buf = np.empty(2 * flat.size, dtype=flat.dtype)
+        buf[1::2] = poison
+        buf[::2] = flat
+        return buf[::2]
+    arr = flat.reshape(shape)
+    return np.asfortranarray(arr) if layout == "fortran" else arr
+
+
 class C08(Prop):
     id = "C08"
     anchored = ["src/pewlib/io/laser.py"]
@@ -95,7 +138,11 @@ class C08(Prop):
             "(4 directions x uni/serpentine), 1..6 lines of 1..9 pixels, four-decimal stage origins (zero, negative, ~8e4 um), "
             "spot sizes 0.1/1.1/12.5/40/random four-decimal in square, rectangular and circular notation, laser-off gaps "
             "(0 ms .. s) with and without off samples, lead-in/late start/early end of the signal (delay of either sign), "
-            "stage-move rows, selection None/int/list at any position, squeeze on/off, 1-3 elements, NaN samples; "
+            "stage-move rows, selection None/int/list (plain or numpy) at any position, squeeze on/off, 1-3 elements, NaN samples; "
+            "the signal handed over as (n,), (1,n), (k,n/k), (n,1), Fortran-ordered or strided array of float64/float32 records or "
+            "plain floats, its clock as stamps (1-d or the data's shape) or - for signals sampled at a constant interval - as the "
+            "acquisition time per sample (float / np.float64); log as str, Path or array; optionally after an earlier call on the "
+            "same objects; "
             "written as a real NWI CSV, read with read_nwi_laser_log and synchronised with sync_data_nwi_laser_log; "
             "samples sit strictly inside dwell/gap slots; non-trivial = every case (each renders at least one On/Off pair); "
             "distinct by canonical case hash")
@@ -192,6 +239,17 @@ class C08(Prop):
         if rng.random() < 0.5:
             patterns[0]["lines"][0]["gap"] = rng.choice([3, 250, 1000, 20000])
             patterns[0]["lines"][0]["gap_samples"] = rng.choice([1, 2, 5])
+        # a signal sampled at a constant interval (the only kind a caller can describe by the acquisition time per
+        # sample): one dwell time for all patterns, every laser-off gap a whole number of sample intervals
+        uniform = rng.random() < 0.4
+        if uniform:
+            dwell = patterns[0]["dwell"]
+            for p in patterns:
+                p["dwell"] = dwell
+                for ln in p["lines"]:
+                    gs = 0 if ln["gap"] == 0 else max(1, ln["gap_samples"]) if rng.random() < 0.7 else rng.choice([4, 9, 25])
+                    ln["gap"], ln["gap_samples"] = gs * dwell, gs
+            acq["tail_gap"] = acq["tail_samples"] * dwell
         cuts = valid_cuts(acq, sel)
         total = cuts[-1]
         window = rng.choice(["full", "full", "late", "early", "both", "any"])
@@ -202,22 +260,31 @@ class C08(Prop):
         if window in ("early", "both", "any"):
             hi = rng.choice([c for c in cuts if c > lo])
         acq["skip"], acq["take"] = lo, hi - lo
-        return {"acq": acq, "sel": sel, "squeeze": rng.random() < 0.5,
+        # how the caller holds the signal and describes its clock
+        layout = rng.choice(["flat", "flat", "row", "rows", "rows", "col", "fortran", "strided"])
+        if uniform:
+            clock = rng.choice(["scalar", "scalar", "scalar", "npscalar", "array", "array2d"])
+        else:
+            clock = rng.choice(["array", "array", "array2d"])
+        extra = {"clock": clock, "layout": layout, "layout_k": rng.randrange(8),
+                 "dtype": rng.choice(["f8", "f8", "f8", "f4", "plain"]),
+                 "selform": rng.choice(["plain", "plain", "numpy"]), "precall": rng.random() < 0.15}
+        return {**extra, "acq": acq, "sel": sel, "squeeze": rng.random() < 0.5,
                 "nan_mod": rng.choice([0, 0, 0, 0, 3, 4, 7, 1]) if rng.random() < 0.9 else 2, "nan_rem": 0,
                 "nelem": rng.choice([1, 2, 3]), "vseed": rng.randint(0, 2 ** 31),
                 "base": [rng.choice([2024, 2025]), rng.randint(1, 12), rng.randint(1, 28), rng.choice([0, 11, 13, 23]),
                          rng.choice([0, 12, 59]), rng.choice([0, 58, 59]), rng.choice([0, 112, 999])],
-                "via": rng.choice(["path", "path", "array"])}
+                "via": rng.choice(["path", "pathobj", "array", "array"])}
 
     def simple(self, d, serp, nlines, npix, X=0, Y=0, sxu=10000, syu=10000, circ=False, gap=10, gs=1, squeeze=False, sel=None,
-               skip=0, take=None):
+               skip=0, take=None, **extra):
         p = {"seq": 1, "dir": d, "serp": serp, "X": X, "Y": Y, "sxu": sxu, "syu": syu, "circular": circ, "npix": npix,
              "dwell": 10, "lines": [{"gap": gap, "gap_samples": gs if gap else 0, "moves": 2} for _ in range(nlines)]}
         acq = {"patterns": [p], "phase": core.rat(Fraction(1, 2)), "tail_gap": 10, "tail_samples": 1, "skip": skip, "take": 0,
                "t0": core.rat(0)}
         acq["take"] = (total_samples(acq) - skip) if take is None else take
-        return {"acq": acq, "sel": sel, "squeeze": squeeze, "nan_mod": 0, "nan_rem": 0, "nelem": 2, "vseed": 7,
-                "base": [2024, 7, 17, 13, 12, 58, 112], "via": "path"}
+        return {**DEFAULTS, "acq": acq, "sel": sel, "squeeze": squeeze, "nan_mod": 0, "nan_rem": 0, "nelem": 2, "vseed": 7,
+                "base": [2024, 7, 17, 13, 12, 58, 112], "via": "path", **extra}
 
     def targeted(self, tier):
         for d in DIRS:
@@ -237,37 +304,97 @@ class C08(Prop):
         for d in DIRS:
             yield self.simple(d, True, 3, 4, skip=3, take=None)
             yield self.simple(d, False, 2, 5, skip=9, take=None)
+        # every way of handing over the signal x every way of giving its clock (gap = whole sample intervals: the
+        # signal is sampled at a constant interval, so the acquisition time per sample describes it)
+        for i, layout in enumerate(LAYOUTS):
+            for j, clock in enumerate(CLOCKS):
+                d = DIRS[(i + j) % 4]
+                yield self.simple(d, (i + j) % 2 == 1, 3, 4, gap=20, gs=2, layout=layout, clock=clock, layout_k=i + j,
+                                  dtype=DTYPES[(i + 2 * j) % 3], via=["path", "pathobj", "array"][(i + j) % 3],
+                                  squeeze=(i % 2 == 0), precall=(j == i % 4))
+        # a signal of a single sample, and a two-sample one, with the clock as a float
+        yield self.simple("lr", False, 1, 1, gap=0, gs=0, take=1, clock="scalar", layout="row")
+        yield self.simple("bt", False, 1, 2, gap=0, gs=0, take=2, clock="npscalar", layout="col", dtype="plain")
 
     # ------------------------------------------------------------------ evaluation
     def evaluate(self, case, ctx):
+        from pathlib import Path
+
         from pewlib.io import laser
 
         acq, sel, squeeze = case["acq"], case["sel"], case["squeeze"]
-        rep = ctx.driver.call("c08.case", acq=acq, sel=sel, squeeze=squeeze, nan_mod=case["nan_mod"], nan_rem=case["nan_rem"])
+        clock, layout, dtype = opt(case, "clock"), opt(case, "layout"), opt(case, "dtype")
+        if clock not in CLOCKS or layout not in LAYOUTS or dtype not in DTYPES:
+            raise core.InternalError(f"bad case options {clock} {layout} {dtype}")
+        shape = layout_shape(layout, opt(case, "layout_k"), signal_count(acq))
+        scalar = clock in ("scalar", "npscalar")
+        rep = ctx.driver.call("c08.case", acq=acq, sel=sel, squeeze=squeeze, nan_mod=case["nan_mod"], nan_rem=case["nan_rem"],
+                              shape=shape, clock="interval" if scalar else "stamps")
         if not rep["rendered"]:
             # nothing to import (no On row in the selection, or an empty signal): outside the property
+            return outcome({}, {}, {}, undetermined=True, hyp=False, features=[])
+        if not rep["shape_ok"] or (scalar and rep["interval"] is None):
+            # the signal was not sampled at a constant interval: no acquisition time per sample describes it
             return outcome({}, {}, {}, undetermined=True, hyp=False, features=[])
         rows = rep["rows"]
         rel = [unrat(t) for t in rep["times"]]
         n = len(rel)
-        times = np.array([float(t) for t in rel], dtype=np.float64)
         delay = float(unrat(rep["delay"]))
-        data = sample_values(case, n)
-        names = data.dtype.names
-        allnan = [all(math.isnan(data[nm][k]) for nm in names) for k in range(n)]
-        toks = [[core.tok(data[nm][k]) for nm in names] for k in range(n)]
+        flat = sample_values(case, n)
+        if dtype == "f4":
+            flat = flat.astype([(nm, np.float32) for nm in flat.dtype.names])
+        names = flat.dtype.names if dtype != "plain" else flat.dtype.names[:1]
+        allnan = [all(math.isnan(flat[nm][k]) for nm in names) for k in range(n)]
+        toks = [[core.tok(flat[nm][k]) for nm in names] for k in range(n)]
+        if dtype == "plain":                                   # a single element as a plain float array
+            flat = np.ascontiguousarray(flat[names[0]])
+        data = lay_out(flat, layout, shape, -1.0 if dtype == "plain" else tuple(-1.0 for _ in names))
+        if scalar:
+            dt = float(unrat(rep["interval"]))
+            times = dt if clock == "scalar" else np.float64(dt)
+        else:
+            tflat = np.array([float(t) for t in rel], dtype=np.float64)
+            if clock == "array2d":                             # stamps in the data's shape (a row when that is 1-d)
+                times = lay_out(tflat, layout if len(shape) == 2 else "row", shape if len(shape) == 2 else [1, n], -1.0)
+            else:
+                times = lay_out(tflat, "strided" if layout == "strided" else "flat", [n], -1.0)
+
+        def field(arr, nm):
+            return arr if arr.dtype.names is None else arr[nm]
 
         path = ctx.tmpdir() / "LaserLog_synthetic.csv"
         gen_nwi.write_log(path, rows, datetime.datetime(*case["base"][:6], case["base"][6] * 1000))
+        lg = logging.getLogger("pewlib.io.laser")             # "flattening" / "multiple spot sizes" warnings: not observed
+        was_disabled, lg.disabled = lg.disabled, True
         try:
-            log = str(path) if case["via"] == "path" else laser.read_nwi_laser_log(path)
-            seq_arg = sel if not isinstance(sel, list) else list(sel)
-            sync, params = laser.sync_data_nwi_laser_log(data, times, log, sequence=seq_arg, delay=delay, squeeze=squeeze)
+            via = case["via"]
+            log = str(path) if via == "path" else Path(path) if via == "pathobj" else laser.read_nwi_laser_log(path)
+            numpy_sel = opt(case, "selform") == "numpy"
+
+            def seq_arg(x):
+                if isinstance(x, list):
+                    return np.array(x, dtype=int) if numpy_sel else list(x)
+                return np.int64(x) if (numpy_sel and x is not None) else x
+
+            if opt(case, "precall"):
+                # an earlier import from the same objects (another selection, another delay); its result is not looked
+                # at.  Arguments it altered are restored: the observed call gets the modelled input.
+                keep = (data.copy(), None if scalar else times.copy(), None if not isinstance(log, np.ndarray) else log.copy())
+                other = None if sel is not None else [p["seq"] for p in acq["patterns"]][:1]
+                try:
+                    laser.sync_data_nwi_laser_log(data, times, log, sequence=seq_arg(other), delay=delay + 0.0625,
+                                                  squeeze=not squeeze)
+                except Exception:
+                    pass
+                for cur, old in zip((data, times, log), keep):
+                    if old is not None and cur.tobytes() != old.tobytes():
+                        cur[...] = old
+            sync, params = laser.sync_data_nwi_laser_log(data, times, log, sequence=seq_arg(sel), delay=delay, squeeze=squeeze)
             cells = []
             for r in range(sync.shape[0]):
                 for c in range(sync.shape[1]):
-                    t = [core.tok(sync[nm][r, c]) for nm in names]
-                    if not all(math.isnan(sync[nm][r, c]) for nm in names):
+                    t = [core.tok(field(sync, nm)[r, c]) for nm in names]
+                    if not all(math.isnan(field(sync, nm)[r, c]) for nm in names):
                         cells.append([r, c, t])
             impl = {"shape": list(sync.shape), "cells": cells,
                     "origin": [float(v).hex() for v in params["origin"]],
@@ -276,6 +403,7 @@ class C08(Prop):
         except Exception as e:  # the quantified inputs never raise
             impl = {"raises": type(e).__name__, "msg": str(e)[:200]}
         finally:
+            lg.disabled = was_disabled
             ctx.cleanup()                                      # the synthetic log is not needed any more
 
         def conv(res):
@@ -302,6 +430,11 @@ class C08(Prop):
                 spec_ok = spec_ok and impl["shape"][0] >= spec["shape"][0] and impl["shape"][1] >= spec["shape"][1]
 
         feats = self.features(case, delay, rep)
+        feats.add("layout:" + layout + ("" if len(shape) == 1 or layout in ("row", "col") else
+                                        ":1xn" if shape[0] == 1 else ":kxm"))
+        if scalar:
+            feats.add("clock+layout:scalar+" + ("len=size" if shape[0] == n else "len<size"))
+            feats.add("samples:" + ("1" if n == 1 else "2" if n == 2 else "3+"))
         return outcome(impl, model, spec, spec_ok=spec_ok, model_ok=model_ok, undetermined=not rep["hyp"], hyp=rep["hyp"],
                        features=feats)
 
@@ -339,6 +472,14 @@ class C08(Prop):
             f.add("nan-samples")
         f.add(f"elements:{case['nelem']}")
         f.add("via:" + case["via"])
+        f.add("clock:" + opt(case, "clock"))
+        f.add("dtype:" + opt(case, "dtype"))
+        if rep.get("interval") is not None:
+            f.add("sampling:uniform")
+        if sel is not None:
+            f.add("selform:" + opt(case, "selform"))
+        if opt(case, "precall"):
+            f.add("precall")
         return f
 
     # ------------------------------------------------------------------ shrinking
@@ -374,6 +515,11 @@ class C08(Prop):
         for k, v in (("squeeze", False), ("nan_mod", 0), ("nelem", 1)):
             if case[k] != v:
                 yield {**copy.deepcopy(case), k: v}
+        for k, v in DEFAULTS.items():
+            if k in case and case[k] != v:
+                yield {**copy.deepcopy(case), k: v}
+        if case["via"] != "path":
+            yield {**copy.deepcopy(case), "via": "path"}
 
 
 PROP = C08()
